@@ -26,7 +26,10 @@ EXPLANATION = (
     "opposite one (popleft / iteration from the left / pop) -- a deque used last-in first-out would reverse the values; "
     "(e) WINDOW: RunningChunkBy.run fills the first window with deque(islice(flow, n), maxlen=n) for one and the same n = "
     "self._cs, then for every further value yields the window before appending the value, yields the last window only under "
-    "len(window) == n, and its two container branches differ only in how the window is handed to the container.  "
+    "len(window) == n, and its two container branches differ only in how the window is handed to the container; "
+    "(f) EXHAUSTION: in the flow elements (lena/flow/iterators.py, lena/flow/elements.py, lena/core/adapters.py, lena/core/split.py) "
+    "no next(<iterator>, <constant>) uses a constant default (None, False, 0, '') as the end-of-flow marker: flows may contain these "
+    "values.  "
     "Does not decide: that the seven branches of the negative-index algorithm select exactly xs[start:stop:step]; the stop "
     "point of fill_into relative to later indices; window contents.")
 LEVEL_NOTE = (
@@ -38,6 +41,7 @@ RULES = {
     "C17-b": "REJECTION: bad steps leave the constructor as LenaValueError; negative path wraps a step != 1 in islice(gen, None, None, step)",
     "C17-c": "STOP: LenaStopFill only when the index iterator is exhausted; fill iff selected; index advances once",
     "C17-d": "ORIENTATION: deques are used first-in first-out (insertion side opposite to removal side)",
+    "C17-f": "EXHAUSTION: the end of a flow is recognised by StopIteration (or a private sentinel object), never by a value the flow may contain",
     "C17-e": "WINDOW: RunningChunkBy's first window and maxlen use the same size; yield-then-append; last window only if full; branches agree",
 }
 IT = "lena.flow.iterators"
@@ -496,7 +500,36 @@ def _next_stmt(node):
     return None
 
 
+# -- C17-f -----------------------------------------------------------------------------------
+def check_exhaustion(ctx):
+    res = ctx.res
+    n = 0
+    for modname in (IT, EL, "lena.core.adapters", "lena.core.split", "lena.flow.zip", "lena.flow.cache"):
+        mod = ctx.tree.module(modname)
+        for c in ast.walk(mod.tree):
+            if not (isinstance(c, ast.Call) and res.call_canon(c) == "builtins.next"):
+                continue
+            n += 1
+            if len(c.args) < 2:
+                ctx.ok("C17-f", c, "`%s`: exhaustion surfaces as StopIteration" % A.short(c, 50))
+                continue
+            d = c.args[1]
+            const = isinstance(d, ast.Constant) or (isinstance(d, (ast.Tuple, ast.List, ast.Dict)) and not getattr(d, "elts", getattr(d, "keys", None)))
+            if const:
+                ctx.violation("C17-f", c, "`%s` marks the end of the iterator by the value %s, which a flow may contain: a flow value equal to "
+                              "it is taken for the end of the flow (the rest is silently lost)" % (A.short(c, 60), A.src(d)),
+                              construct="next-default:%s" % A.src(d))
+            else:
+                t = res.resolve(d) if isinstance(d, (ast.Name, ast.Attribute)) else None
+                if t is not None and t.kind in ("var", "def"):
+                    ctx.ok("C17-f", c, "`%s`: private sentinel" % A.short(c, 50))
+                else:
+                    ctx.unknown("C17-f", c, "`%s`: default of next() not classified" % A.short(c, 60))
+    ctx.instances_floor("C17-f", n, 5, "next() calls in the flow elements")
+
+
 def check(ctx):
+    check_exhaustion(ctx)
     check_delegation(ctx)
     check_rejection(ctx)
     check_stop(ctx)
@@ -507,6 +540,8 @@ def check(ctx):
 ITF = "lena/flow/iterators.py"
 ELF = "lena/flow/elements.py"
 VARIANTS = [
+    M("skip-with-none-sentinel", ITF, "                for _ in zip(range(start), flow):\n                    pass", "                for _ in range(start):\n                    if next(flow, None) is None:\n                        return", ["C17-f"]),
+    M("fillcompute-none-sentinel", "lena/core/adapters.py", "            try:\n                val = next(slice_)\n            except StopIteration:\n                # Unlike FillCompute, we don't yield anything\n                # if the flow was smaller than the required bufsize\n                break\n            else:\n                self._el_fill(val)\n                nfills += 1", "            val = next(slice_, None)\n            if val is None:\n                break\n            self._el_fill(val)\n            nfills += 1", ["C17-f"]),
     M("islice-args-reversed", ITF, "            self._islice = lambda iterable: islice(iterable, *args)", "            self._islice = lambda iterable: islice(iterable, *args[::-1])", ["C17-a"]),
     M("islice-stop-only", ITF, "            self._islice = lambda iterable: islice(iterable, *args)", "            self._islice = lambda iterable: islice(iterable, args[-1])", ["C17-a"]),
     M("guard-positive-only", ITF, "        if all([val is None or val >= 0 for val in args]):", "        if all([val is None or val > 0 for val in args]):", ["C17-a"]),
